@@ -17,6 +17,7 @@ import (
 
 	"github.com/buzzfeed/sso/internal/pkg/sessions"
 	"github.com/buzzfeed/sso/internal/pkg/validators"
+	"github.com/buzzfeed/sso/internal/proxy"
 )
 
 var domainsPool = []string{"example.com", "a.com", "Example.COM", "sub.example.com", "b.org", "évil.com", "İ.com", "x@y.com", "com", "", "*.example.com", "*.a.com", ".example.com", "*example.com", "example.*"}
@@ -251,6 +252,8 @@ func yamlList(l []string) string {
 }
 
 type gateCase struct {
+	NoRules             bool // the upstream's resolved configuration has no allow rule at all (zero validators)
+	ViaExtraRoute       bool // the policy is that of an EXTRA ROUTE whose parent states other entries of the same kinds
 	Addrs, Doms, Groups []string
 	Email               string
 	UserGroups          []string
@@ -271,9 +274,36 @@ func gate(r *c.Rng, auth *c.FakeAuth, dir string, g gateCase) c.Case {
 	if len(g.Groups) > 0 {
 		opts = append(opts, "      allowed_groups: "+yamlList(g.Groups))
 	}
-	yaml := "- service: decoy\n  default:\n    from: decoy.example.test\n    to: " + backend.HostPort() + "\n    options:\n      allowed_email_domains: [\"*\"]\n      allowed_groups: [\"*\"]\n" +
-		"- service: svc\n  default:\n    from: app.example.test\n    to: " + backend.HostPort() + "\n    options:\n" + strings.Join(opts, "\n") + "\n"
-	w, err := c.BuildProxy(c.ProxyOpts{YAML: yaml, Valid: time.Hour, Grace: 0, Dir: dir}, auth)
+	if g.NoRules {
+		opts = []string{"      allowed_email_domains: [\"placeholder.invalid\"]"} // the loader insists on a rule; removed after loading
+	}
+	svc := "- service: svc\n  default:\n    from: app.example.test\n    to: " + backend.HostPort() + "\n    options:\n" + strings.Join(opts, "\n") + "\n"
+	if g.ViaExtraRoute {
+		// the case's policy is stated by an extra route; its parent states OTHER entries of the same kinds, which the extra
+		// route replaces ("inherit ... if not specified here")
+		var popts []string
+		if len(g.Addrs) > 0 {
+			popts = append(popts, "      allowed_email_addresses: [\"parent.only@parent.test\"]")
+		}
+		if len(g.Doms) > 0 {
+			popts = append(popts, "      allowed_email_domains: [\"parent.test\"]")
+		}
+		if len(g.Groups) > 0 {
+			popts = append(popts, "      allowed_groups: [\"parentgroup\"]")
+		}
+		var eopts []string
+		for _, o := range opts {
+			eopts = append(eopts, "    "+o)
+		}
+		svc = "- service: svc\n  default:\n    from: parent.example.test\n    to: " + backend.HostPort() + "\n    options:\n" + strings.Join(popts, "\n") + "\n" +
+			"    extra_routes:\n      - from: app.example.test\n        to: " + backend.HostPort() + "\n        options:\n" + strings.Join(eopts, "\n") + "\n"
+	}
+	yaml := "- service: decoy\n  default:\n    from: decoy.example.test\n    to: " + backend.HostPort() + "\n    options:\n      allowed_email_domains: [\"*\"]\n      allowed_groups: [\"*\"]\n" + svc
+	po := c.ProxyOpts{YAML: yaml, Valid: time.Hour, Grace: 0, Dir: dir}
+	if g.NoRules {
+		po.AfterLoad = func(cfg *proxy.Configuration) { proxy.VerifC11ClearRules(&cfg.UpstreamConfigs, "svc") }
+	}
+	w, err := c.BuildProxy(po, auth)
 	c.Must(err)
 	host := "app.example.test"
 
@@ -433,6 +463,16 @@ func genGate(r *c.Rng) gateCase {
 		g.UserGroups = []string{}
 	}
 	g.GroupsErr = r.Chance(0.1)
+	switch {
+	case r.Chance(0.04):
+		g.NoRules, g.Addrs, g.Doms, g.Groups = true, nil, nil, nil
+	case r.Chance(0.3):
+		g.ViaExtraRoute = true
+		if r.Chance(0.5) { // a user whom only the PARENT's entries would admit
+			g.Email = []string{"parent.only@parent.test", "x@parent.test", "PARENT.ONLY@PARENT.TEST"}[r.Intn(3)]
+			g.UserGroups = append(g.UserGroups, "parentgroup")
+		}
+	}
 	return g
 }
 
